@@ -15,7 +15,7 @@ Definition syn_of_ext (s : N) : outcome Ps2Decoder := nth (N.to_nat s) syn_of_ex
 
 Lemma corr_ps2_closed :
   closedb (ps2_machine syn_ps2) (ps2_machine ext_ps2) Ps2Decoder_eqb psres_eqb all_ops
-          (fun s => s <? ext_ps2_states) (all_below ext_ps2_states) syn_of_ext = true.
+          (fun s => s <? ext_ps2_states) (all_below ext_ps2_states) syn_of_ext (fun _ _ => false) = true.
 Proof. vm_compute. reflexivity. Qed.
 
 Theorem corr_ps2_bits : forall ops : list bit_op,
@@ -25,7 +25,7 @@ Proof.
   intros ops.
   apply (bisim_outs (ps2_machine syn_ps2) (ps2_machine ext_ps2) Ps2Decoder_eqb psres_eqb all_ops
                     (fun s => s <? ext_ps2_states) (all_below ext_ps2_states)
-                    (fun s H => all_below_complete _ s (proj1 (N.ltb_lt _ _) H)) syn_of_ext corr_ps2_closed).
+                    (fun s H => all_below_complete _ s (proj1 (N.ltb_lt _ _) H)) syn_of_ext (fun _ _ => false) (fun _ _ => eq_refl) corr_ps2_closed).
   - apply Forall_forall. intros op _. apply all_ops_complete.
   - reflexivity.
   - reflexivity.
